@@ -98,6 +98,11 @@ CHECKS = {
     technique='runtime monitoring: `gemato create/update -p PROFILE` on generated ebuild repositories under permuted os.walk order vs an independent policy model (placement, default IGNOREs, entry types, hashes, sorting, compression) + independent post-condition + fresh default-profile verification',
     text='Generated repositories (categories x packages with ebuilds, metadata.xml, nested files/, eclass, licenses, profiles, metadata with dtd/glsa/news/xml-schema/md5-cache, ignored distfiles/local/packages) are run through create and 0..3 rounds of edits + update for each profile and override combination: the directories holding a Manifest, the default IGNORE entries of new Manifests, every entry type, the hash set, sortedness and the compression state of every sub-Manifest must follow the documented policy, the entries must describe the tree, and a plain default-profile loader must verify the result.',
     note='Trusted: vf/model/policy.py (written from the profile documentation), independent reader. U12: top-level directories with sub-directories but no package, and metadata.xml outside category/package directories. Existing Manifests are never expected to disappear on update.'),
+ 'C20': dict(
+    category='exploration', design='3 C20',
+    technique='runtime monitoring: the bundled fast generator scripts run as real subprocesses on generated repositories; their output judged by the real verifier, the independent reader/post-condition and a semantic before/after diff around `gemato update -p ebuild`',
+    text='For generated repositories with the standard layout (with and without pre-existing package Manifests carrying DIST entries) gen_fast_metamanifest.py on the repository or gen_fast_manifest.py on one package directory must exit 0, the result must pass `gemato verify`, cover every file exactly once with true size/BLAKE2B/SHA512, be left semantically unchanged (TIMESTAMP aside) by `gemato update -p ebuild`, and after 0..5 edits an update must yield a tree that verifies and describes the files exactly.',
+    note='Domain: portable names, ignored directories absent, and the standard directories the meta script hard-codes present (otherwise it exits non-zero). For single package directories the no-op/edit update is only judged when files/ has no sub-directories (the ebuild profile applied at a package root would otherwise want extra Manifests).'),
 }
 
 def main():
